@@ -305,6 +305,15 @@ pub fn supervise(args: &[String]) -> i32 {
                         ws[w].alive = true;
                         alive += 1;
                     }
+                } else if code == Some(72) {
+                    // the worker reported a run that left parked threads behind and asked to be replaced
+                    let next = ws[w].next_start;
+                    let left = budget - t0.elapsed().as_secs_f64();
+                    if next < runs && left > 1.0 && agg.violations.len() < 50 {
+                        spawn_worker(&tx, w, &check, &tier, seed, next, workers as u64, runs, left);
+                        ws[w].alive = true;
+                        alive += 1;
+                    }
                 } else if code != Some(0) {
                     agg.harness_errors.push(format!("worker {} exited with code {:?} signal {:?}", w, code, sig));
                 }
